@@ -447,15 +447,10 @@ def judge(name, data, text, L, kind, res, part):
     return True
 
 
-def work(chunk_id, payload):
-    seed, tier, ncases, binary, workroot, seeds, exhaustive_trunc, membin, \
-        nmem = payload
+def gen_inputs(seed, chunk_id, ncases, seeds, exhaustive_trunc):
+    """the inputs of one chunk: a pure function of its arguments"""
     rng = np.random.default_rng([seed, chunk_id, 99])
-    part = dict(evaluations=0, counters={}, maxima={}, distinct=set(),
-                samples=[], violations=[], inconclusive=[], harness_errors=[])
     names = sorted(seeds)
-    cases = []
-    meta = {}
     inputs = []
     if exhaustive_trunc:
         # truncation at every byte offset of the small seeds (striped)
@@ -484,6 +479,17 @@ def work(chunk_id, payload):
         if rng.random() < 0.02:
             d = seeds[nm]   # unmutated: must load
         inputs.append((nm_, d[:20000], "mut"))
+    return inputs
+
+
+def work(chunk_id, payload):
+    seed, tier, ncases, binary, workroot, seeds, exhaustive_trunc, membin, \
+        nmem = payload
+    part = dict(evaluations=0, counters={}, maxima={}, distinct=set(),
+                samples=[], violations=[], inconclusive=[], harness_errors=[])
+    cases = []
+    meta = {}
+    inputs = gen_inputs(seed, chunk_id, ncases, seeds, exhaustive_trunc)
     for k, (nm, d, how) in enumerate(inputs):
         text, L, kind = case_script(nm, d, use_f=(k % 3 == 0),
                                     used=(k // 2 if k % 2 else None))
